@@ -132,12 +132,21 @@ def law_matrix(run, a, engine, case) -> Any:
             if maxdiff(mat_entries(m2), e) > 1e-12:
                 run.violation(f'from_angle({acls.__name__}) differs from from_angle(p, y, r)', case=case, engine=engine,
                               key='from-angle-forms-differ')
-    return mods[0]
+    return mods
+
+
+def unchanged(run, m, e, what: str, engine, case) -> None:
+    """A method documented as returning a new value must leave the matrix it was called on as it was (frozen or not)."""
+    now = mat_entries(m)
+    if now != e:
+        run.violation(f'{type(m).__name__}.{what} changed the matrix it was called on', witness={'before': e, 'after': now},
+                      case=case, engine=engine, key='method-mutates-matrix')
 
 
 def law_to_angle(run, m, e, engine, case) -> None:
     from srctools.math import Matrix
     ang = m.to_angle()
+    unchanged(run, m, e, 'to_angle()', engine, case)
     back = mat_entries(Matrix.from_angle(ang))
     h = horiz(e)
     tol = 1e-9 if h > 0.001 else 2 * h + 1e-9
@@ -157,7 +166,17 @@ def law_inverse(run, m, e, engine, case) -> None:
     except ArithmeticError as exc:
         run.violation(f'inverse() of a rotation raised {exc}', case=case, engine=engine, key='inverse-raises')
         return
+    unchanged(run, m, e, 'inverse()', engine, case)
     tr = mat_entries(m.transpose())
+    unchanged(run, m, e, 'transpose()', engine, case)
+    # the other way round on the same object: a transpose() that worked in place would poison the inverse() after it
+    inv2 = mat_entries(m.inverse())
+    if maxdiff(inv2, inv) != 0.0:
+        run.violation('inverse() gives a different answer after transpose() was called on the same matrix', case=case, engine=engine,
+                      key='method-mutates-matrix')
+    for name in ('forward', 'left', 'up', 'copy'):
+        getattr(m, name)()
+        unchanged(run, m, e, name + '()', engine, case)
     run.count('inverse_checked')
     if maxdiff(tr, [list(r) for r in zip(*e)]) != 0.0:
         run.violation('transpose() is not the transpose', case=case, engine=engine, key='transpose-wrong')
@@ -465,9 +484,9 @@ def one_case(run, rng, i, engine) -> None:
     b = gen_angle(rng, rng.choice((0, 1, 2, 4)))
     v = gen_vec(rng)
     case = {'id': i, 'a': a, 'b': b, 'v': v}
-    m, e = law_matrix(run, a, engine, case)
-    law_to_angle(run, m, e, engine, case)
-    law_inverse(run, m, e, engine, case)
+    for m, e in law_matrix(run, a, engine, case):  # the mutable and the frozen class
+        law_to_angle(run, m, e, engine, case)
+        law_inverse(run, m, e, engine, case)
     if i % 3 == 0:
         law_operands(run, rng, a, b, v, engine, case)
     if i % 5 == 0:
@@ -505,9 +524,9 @@ def main(run, shard=(0, 1)) -> None:
                     continue
                 a = (15.0 * p, 15.0 * y, 15.0 * r)
                 case = {'grid': a}
-                m, e = law_matrix(run, a, 'grid15', case)
-                law_to_angle(run, m, e, 'grid15', case)
-                law_inverse(run, m, e, 'grid15', case)
+                for m, e in law_matrix(run, a, 'grid15', case):
+                    law_to_angle(run, m, e, 'grid15', case)
+                    law_inverse(run, m, e, 'grid15', case)
                 evals += 1
     run.case_bulk(evals, 0)
     run.count('grid15_angles', evals)
@@ -525,14 +544,14 @@ def replay(run, data) -> None:
         native_engine(run)
     elif 'grid' in case:
         a = tuple(case['grid'])
-        m, e = law_matrix(run, a, 'replay', case)
-        law_to_angle(run, m, e, 'replay', case)
-        law_inverse(run, m, e, 'replay', case)
+        for m, e in law_matrix(run, a, 'replay', case):
+            law_to_angle(run, m, e, 'replay', case)
+            law_inverse(run, m, e, 'replay', case)
     elif 'a' in case:
         a, b, v = tuple(case['a']), tuple(case['b']), tuple(case['v'])
-        m, e = law_matrix(run, a, 'replay', case)
-        law_to_angle(run, m, e, 'replay', case)
-        law_inverse(run, m, e, 'replay', case)
+        for m, e in law_matrix(run, a, 'replay', case):
+            law_to_angle(run, m, e, 'replay', case)
+            law_inverse(run, m, e, 'replay', case)
         law_operands(run, sub_rng(0, 'replay', 0), a, b, v, 'replay', case)
     else:
         law_constructions(run, sub_rng(run.seed, 'alg', case['id']), 'replay', case['id'])
